@@ -21,9 +21,14 @@ fn b(v: Vec<u8>) -> B {
 /// boundary targets for the logical-clock jump
 pub fn jump_targets() -> Vec<u64> {
     let mut v = vec![];
-    for k in 1..8u32 {
-        v.push((1u64 << (8 * k)) - 2);
-        v.push((1u64 << (8 * k)) - 1);
+    // carries across every bit position (not only byte boundaries): 2^k - 2 and 2^k - 1
+    for k in 8..64u32 {
+        v.push((1u64 << k) - 2);
+        v.push((1u64 << k) - 1);
+    }
+    // low 32-bit word all ones under assorted high words
+    for h in [2u64, 3, 5, 0x100, 0x10001, 0x7fff_ffff, 0xffff_fffe] {
+        v.push((h << 32) | 0xffff_ffff);
     }
     v.extend_from_slice(&[(1u64 << 32) - 1, 1u64 << 63, u64::MAX - 2, u64::MAX - 1, u64::MAX]);
     v.sort();
@@ -147,19 +152,29 @@ fn setup_pair(ev: &mut Vec<Ev>, rng: &mut Prng, c: usize, cfg: &Cfg, s_model: bo
     } else {
         ev.push(Ev::Keygen { k: 2 * c, kem, ikm: ikm_r.clone() });
     }
+    let mut ikm_s: Option<B> = None;
     let ks = if cfg.mode.has_auth() {
         if rng.chance(1, 15) {
             // aliasing: a self-addressed authenticated session (sender identity = recipient key pair)
             Some(2 * c)
         } else {
-            ev.push(Ev::Keygen { k: 2 * c + 1, kem, ikm: ikm(rng) });
+            let i = if rng.chance(1, 10) { b(rng.rand_bytes(nsk)) } else { ikm(rng) };
+            ikm_s = Some(i.clone());
+            ev.push(Ev::Keygen { k: 2 * c + 1, kem, ikm: i });
             Some(2 * c + 1)
         }
     } else {
         None
     };
-    // aliasing: the ephemeral key pair equals the recipient's (RNG returns the recipient's ikm)
-    let script = if ikm_r.len() == nsk && rng.chance(1, 3) { ikm_r.clone() } else { rng_script(rng, kem) };
+    // aliasing: the ephemeral key pair equals the recipient's, or the sender's identity key pair
+    // (the caller's RNG returns the very bytes one of those keys was derived from)
+    let script = if ikm_r.len() == nsk && rng.chance(1, 3) {
+        ikm_r.clone()
+    } else if ikm_s.as_ref().map(|i| i.len() == nsk).unwrap_or(false) && rng.chance(1, 2) {
+        ikm_s.clone().unwrap()
+    } else {
+        rng_script(rng, kem)
+    };
     ev.push(Ev::SetupS { c, cfg: cfg.clone(), kr: 2 * c, ks, ks_pub: None, rng: script, model_only: s_model });
     ev.push(Ev::SetupR { c, cfg: cfg.clone(), kr: 2 * c, ks, enc: EncSrc::Of(c), model_only: r_model });
 }
@@ -167,6 +182,10 @@ fn setup_pair(ev: &mut Vec<Ev>, rng: &mut Prng, c: usize, cfg: &Cfg, s_model: bo
 fn msg(rng: &mut Prng, big: bool) -> (B, B) {
     let cap = if big && rng.chance(1, 40) { 70001 } else { 300 };
     (b(rng.var_bytes(cap)), b(rng.var_bytes(cap.min(5000))))
+}
+
+fn rng_big(rng: &mut Prng) -> bool {
+    rng.chance(1, 4)
 }
 
 fn open_api(rng: &mut Prng) -> OpenApi {
@@ -314,17 +333,14 @@ pub fn gen_c02(rng: &mut Prng, run: u64, _t: &Tier) -> Vec<Ev> {
         // both peers of every pairing continue from a far position (hook): ComputeNonce must agree
         // with the RFC for every byte of the counter
         let targets = jump_targets();
-        let mut pos = 0usize;
-        for _ in 0..rng.range(1, 4) {
-            pos += rng.range(0, 5);
-            if pos >= targets.len() {
-                break;
-            }
+        let mut picks: Vec<usize> = (0..rng.range(1, 3)).map(|_| rng.below(targets.len() as u64) as usize).collect();
+        picks.sort();
+        picks.dedup();
+        for pos in picks {
             let mut to = targets[pos];
             if rng.chance(1, 3) {
                 to = to.saturating_add(rng.below(1 << 20)).min(u64::MAX - 4);
             }
-            pos += 1;
             for c in 0..3 {
                 ev.push(Ev::Jump { c, role: Role::S, to });
                 ev.push(Ev::Jump { c, role: Role::R, to });
@@ -397,7 +413,7 @@ pub fn gen_c04(rng: &mut Prng, run: u64, t: &Tier) -> Vec<Ev> {
         let choice = rng.below(10);
         if (step == 0 && start_jump) || choice < 3 {
             if pos_idx < targets.len() {
-                let skip = rng.geometric(4);
+                let skip = rng.geometric(12) + if rng.chance(1, 3) { rng.range(0, 30) } else { 0 };
                 pos_idx = (pos_idx + skip).min(targets.len() - 1);
                 let mut to = targets[pos_idx];
                 if rng.chance(1, 4) && pos_idx + 1 < targets.len() {
@@ -521,7 +537,8 @@ pub fn gen_history(rng: &mut Prng, run: u64, o: &HistOpts) -> Vec<Ev> {
         after_special = false;
         let roll = rng.below(100);
         if roll < 30 || (sched == 2 && roll < 50) {
-            let (pt, aad) = msg(rng, false);
+            let big = rng_big(rng);
+            let (pt, aad) = msg(rng, big);
             ev.push(Ev::Seal { c, pt, aad, inplace: rng.chance(1, 2) });
         } else if roll < 70 {
             let from = if faulty && ns > 1 && rng.chance(1, 6) { rng.below(ns as u64) as usize } else { c };
@@ -690,6 +707,13 @@ pub fn gen_c06(rng: &mut Prng, run: u64, t: &Tier) -> Vec<Ev> {
         ev.push(Ev::SealMany { c: 0, n, len: *rng.pick(&[0usize, 0, 0, 1, 5]), inplace: rng.chance(1, 2) });
         ev.push(Ev::StripZerosProbe { r: 0, from: 0 });
     }
+    // a message longer than 2^16 bytes (length arithmetic in narrower integers): strided sweep
+    if rng.chance(1, 30) {
+        let l = *rng.pick(&[65536usize, 65537, 65552, 70001]);
+        ev.push(Ev::Seal { c: 0, pt: b(rng.bytes(l)), aad: b(rng.var_bytes(40)), inplace: rng.chance(1, 2) });
+        let api = if rng.chance(1, 2) { OpenApi::Alloc } else { OpenApi::InPlace };
+        ev.push(Ev::TamperSweep { r: 0, from: 0, rec: nrec, api, max_bits: 1500, only: None });
+    }
     // soak: more than 2^16 rejected deliveries on one receiver, then the sweep of one more record
     if rng.chance(1, 12) {
         ev.push(Ev::RejectBurst { r: 0, from: 0, n: 66_000 });
@@ -752,7 +776,7 @@ fn perturb_bytes(rng: &mut Prng, v: &[u8]) -> Vec<u8> {
 pub fn gen_c07(rng: &mut Prng, run: u64, _t: &Tier) -> Vec<Ev> {
     let mut ev = vec![];
     let (suite, mode) = suite_mode_biased(run, rng, &SEAL_AEADS, false);
-    let mut cfg = gen_cfg(rng, suite, mode, 80);
+    let mut cfg = gen_cfg(rng, suite, mode, 300);
     if !mode.has_psk() {
         cfg.psk = b(vec![]);
         cfg.psk_id = b(vec![]);
